@@ -1416,6 +1416,10 @@ class Models(object):
         if a.ndim != 1:
             raise AnalysisError('sort of a non 1-d array')
         keys = []
+        if ndarr.ELEMENT_RANK is not None:
+            ranks = [ndarr.ELEMENT_RANK(v) for v in a.items()]
+            if all(r is not None for r in ranks):
+                return a, [(1, r) for r in ranks]
         for v in a.items():
             c = ndarr.concrete_real(v)
             if c is not None:
